@@ -321,7 +321,7 @@ def run(ctx):
                              "<ws>/user <ws>/shared <ws>/user/build` of the hooks-on build with "
                              + ("VERIF_DEPLOY_CRASH_AT=<kill_point>" if r["mode"] == "hook" else
                                 "LD_PRELOAD=_work/bin/killpoint.so VERIF_KILL_DIR=<ws>/user VERIF_KILL_AT=<kill_point>")
-                             + " (exit 137), run `_work/bin/deptool-plain-* probe-all <ws>/user/build`, deploy again without the "
+                             + " (exit 137), run `<run dir>/snap-plain/bin/deptool probe-all <ws>/user/build`, deploy again without the "
                                "variable and compare `deptool dump` with that of a clean deployment",
                       "cmd": "bin/check C13 %s" % ctx.tier}
             ctx.violation(key, "kill at %s (%s, scenario %s): %s" % (f.get("site"), r["mode"], name, f["kind"]), replay, found_input=True)
